@@ -262,7 +262,7 @@ def run_cmd(cmd, stdin=None, stdout=None, timeout=3000):
 def inject_worker(job):
     import random
     r = random.Random(job["seed"])
-    base = os.path.join(WORK, "inj-%d" % job["shard"])
+    base = os.path.join(job["work"], "inj-%d" % job["shard"])
     cases_p, min_p, real_p, model_p, wfin_p, wfout_p = (base + s for s in (".cases", ".min", ".real", ".model", ".wfin", ".wfout"))
     texts = {}
     with open(cases_p, "w") as f:
@@ -372,7 +372,7 @@ def inject_worker(job):
 
 
 def wf_worker(job):
-    base = os.path.join(WORK, "wf-%d" % job["shard"])
+    base = os.path.join(job["work"], "wf-%d" % job["shard"])
     out_p, drv_p = base + ".dump", base + ".wf"
     tmpd = base + ".tmp"
     os.makedirs(tmpd, exist_ok=True)
@@ -430,11 +430,14 @@ def wf_worker(job):
 
 
 def run_jobs(jobs):
-    """Run worker jobs as parallel subprocesses of this file."""
-    os.makedirs(WORK, exist_ok=True)
+    """Run worker jobs as parallel subprocesses of this file (scratch files in a
+    directory of this run only, so concurrent runs do not collide)."""
+    work = os.path.join(WORK, "run-%d" % os.getpid())
+    os.makedirs(work, exist_ok=True)
     procs = []
     for j in jobs:
-        jp = os.path.join(WORK, "job-%s-%d.json" % (j["kind"], j["shard"]))
+        j["work"] = work
+        jp = os.path.join(work, "job-%s-%d.json" % (j["kind"], j["shard"]))
         json.dump(j, open(jp, "w"))
         procs.append((jp, subprocess.Popen([sys.executable, os.path.abspath(__file__), jp], stdout=subprocess.PIPE,
                                            stderr=subprocess.PIPE)))
@@ -445,6 +448,10 @@ def run_jobs(jobs):
             raise vlib.InfraError("C03 worker failed: %s\n%s" % (jp, se.decode()[-3000:]))
         out.append(json.loads(so.decode()))
         os.unlink(jp)
+    try:
+        os.rmdir(work)
+    except OSError:
+        pass
     return out
 
 
